@@ -15,12 +15,21 @@
      the dictionary `rops sq` of a real field F with oracle sq; `qr_regular sq rows cs m` — in the
      run over the columns cs no reflected vector u = x + a e is zero and the oracle returned a
      square root of its squared length.
-   NOT proved (delivered as `_partial`, see the comments at those theorems):
-   Cholesky completeness (SPD -> present) and upper-triangularity of R. *)
+   * `qr_lengths_ok sq rows cs m` — the oracle also returned a square root of the squared length
+     of every reflected sub-column; `posdef B` — 0 < x^T B x for every x <> 0.
+   Everything the property asks is proved: soundness, rejection and COMPLETENESS of Cholesky
+   (present <-> positive definite, for symmetric square inputs over a real closed field),
+   LDL^T soundness / rejection, and for QR: shapes, absence <-> N > M, Q^T Q = 1, Q R = A and R
+   UPPER TRIANGULAR, both for regular runs over any real field with any oracle and — over a real
+   closed field with sqrt = Num.sqrt — for every M x N input, M >= N, with linearly independent
+   columns (\rank A = N), 1 x 1 and N x 1 included (C08_qr_full_rank).
+   The theorems over `rcfType` quantify over every real closed field; no instance is constructed
+   here (none is installed), the oracle-parametric versions have concrete instances (examples). *)
 From Coq Require Import PeanoNat List.
 From mathcomp Require Import all_ssreflect all_algebra.
 From EasyML Require Import Base.Sx Model.Num Model.LinAlg Model.Decomp
-     Proofs.C07P1 Proofs.C08P1 Proofs.C08P2 Proofs.C08P3 Proofs.C08P5 Proofs.C08P4 Proofs.C08P6 Proofs.C08Ex.
+     Proofs.C07P1 Proofs.C08P1 Proofs.C08P2 Proofs.C08P3 Proofs.C08P5 Proofs.C08P7 Proofs.C08P4 Proofs.C08P6 Proofs.C08P8 Proofs.C08P9
+     Proofs.C08P10 Proofs.C08Ex.
 Import GRing.Theory Num.Theory.
 Local Open Scope ring_scope.
 
@@ -52,14 +61,33 @@ Theorem C08_cholesky_rejects_not_posdef : forall (F : rcfType) (a : list (list F
   cholesky (rops (@Num.sqrt F)) a = None.
 Proof. exact @cholesky_rejects_not_posdef. Qed.
 
-(* FULL STATEMENT NOT PROVED (C08_cholesky_complete): for every symmetric positive definite a,
-   exists L, cholesky ops a = Some L.
-   Proved instead — the mathematical core: if the leading block has been factored as L L^T with L
-   invertible, the new row's off-diagonal part l solves L l = c and the bordered matrix
-   [[L L^T, L l], [(L l)^T, a]] is positive definite, then the next pivot a - l^T l is positive
-   (so the `<= 0 -> None` exit is not taken).  MISSING: the lemma connecting the partial-row state
-   (L, cur) of Model/Decomp.chol_rows to this block decomposition, and the induction over rows. *)
-Theorem C08_cholesky_complete_partial : forall (F : realFieldType) (n : nat) (L : 'M[F]_n)
+(* COMPLETENESS.  Any real field with an oracle making the dictionary an ordered field with
+   square roots: a square, symmetric, positive definite input is accepted *)
+Theorem C08_cholesky_complete_any_oracle : forall (F : realFieldType) (sq : F -> F)
+  (a : list (list F)),
+  ordered_sqrt_field (rops sq) (fun x y : F => x < y) -> mrows a = mcols a ->
+  C08P1.symmetric (rops sq) a (mrows a) -> posdef (mxo sq (mrows a) (mrows a) a) ->
+  exists L, cholesky (rops sq) a = Some L.
+Proof. exact @cholesky_complete_gen. Qed.
+
+(* real closed field, sqrt = Num.sqrt: SPD -> Some; and present <-> positive definite *)
+Theorem C08_cholesky_complete : forall (F : rcfType) (a : list (list F)),
+  mrows a = mcols a -> C08P1.symmetric (rops (@Num.sqrt F)) a (mrows a) ->
+  posdef (mxo (@Num.sqrt F) (mrows a) (mrows a) a) ->
+  exists L, cholesky (rops (@Num.sqrt F)) a = Some L.
+Proof. exact @cholesky_complete. Qed.
+
+Theorem C08_cholesky_present_iff_posdef : forall (F : rcfType) (a : list (list F)),
+  mrows a = mcols a -> C08P1.symmetric (rops (@Num.sqrt F)) a (mrows a) ->
+  ((exists L, cholesky (rops (@Num.sqrt F)) a = Some L) <->
+   posdef (mxo (@Num.sqrt F) (mrows a) (mrows a) a)).
+Proof. exact @cholesky_present_iff_posdef. Qed.
+
+(* the step behind completeness: with the finished rows L (invertible) and any candidate
+   off-diagonal part l of the next row, the bordered block matrix being positive definite makes
+   the next pivot positive; Proofs/C08P9.pivot_from_posdef links the routine's partial-row state
+   to this block decomposition (the bordered matrix is the leading block of A) *)
+Theorem C08_cholesky_next_pivot_positive : forall (F : realFieldType) (n : nat) (L : 'M[F]_n)
   (l : 'cV[F]_n) (a : F), L \in unitmx ->
   posdef (bordered L l a) -> 0 < a - (l^T *m l) 0 0.
 Proof. exact @next_pivot_positive. Qed.
@@ -114,16 +142,41 @@ Theorem C08_qr : forall (F : realFieldType) (sq : F -> F) (rows cols : nat)
   mxo sq rows rows q *m mxo sq rows cols r = mxo sq rows cols m.
 Proof. exact @qr_sound. Qed.
 
-(* FULL STATEMENT NOT PROVED (R upper triangular): under the hypotheses of C08_qr and a correct
-   oracle on the column lengths, mget r i j = 0 for j < i.
-   Proved instead — the reflection lemma: with u = x + a e, a^2 = x^T x (x0 = e^T x) and
-   t = a^2 + a x0 <> 0, the matrix I - (2 / (2 t)) u u^T (2 t = u^T u when e^T e = 1: C08P4.uu)
-   maps x to -a e, i.e. annihilates every
-   entry of the column below the first.  MISSING: instantiating it with the model's u and a
-   (a = +-sq(x^T x), the sign choice gives a^2 + a x0 <> 0 for x <> 0), identifying
-   2 / u^T u with the model's division by sq(u^T u) twice, and the padding induction showing that
-   later reflections keep the zeroed columns. *)
-Theorem C08_qr_triangular_partial : forall (F : fieldType) (n : nat) (x e : 'cV[F]_n) (a x0 : F),
+(* R is upper triangular for every regular run on whose sub-column lengths the oracle was right *)
+Theorem C08_qr_triangular : forall (F : realFieldType) (sq : F -> F) (rows cols : nat)
+  (m q r : list (list F)), wf2 rows cols m -> (1 <= rows)%N ->
+  qr (rops sq) m = Some (q, r) ->
+  qr_regular sq rows (List.seq 0 (Nat.min (rows - 1) cols)) m ->
+  qr_lengths_ok sq rows (List.seq 0 (Nat.min (rows - 1) cols)) m ->
+  forall i j, (j < i)%N -> (i < rows)%N -> (j < cols)%N -> mget (rops sq) r i j = 0.
+Proof. exact @qr_upper_triangular. Qed.
+
+(* real closed field, sqrt = Num.sqrt: linearly independent columns make the run regular *)
+Theorem C08_qr_regular_of_full_rank : forall (F : rcfType) (rows cols k c0 : nat)
+  (r : list (list F)),
+  wf2 rows cols r -> (c0 + k <= rows)%N -> (c0 + k <= cols)%N ->
+  \rank (mxo (@Num.sqrt F) rows cols r) = cols -> tri_upto (@Num.sqrt F) rows cols c0 r ->
+  qr_regular (@Num.sqrt F) rows (List.seq c0 k) r /\
+  qr_lengths_ok (@Num.sqrt F) rows (List.seq c0 k) r.
+Proof. exact @regular_of_rank. Qed.
+
+(* THE PROPERTY'S QR STATEMENT: every M x N input with M >= N (N x 1, 1 x 1 included) and
+   linearly independent columns has a present result with Q (M x M) orthogonal, R (M x N) upper
+   triangular and Q R = A *)
+Theorem C08_qr_full_rank : forall (F : rcfType) (rows cols : nat) (m : list (list F)),
+  wf2 rows cols m -> (1 <= rows)%N -> (cols <= rows)%N ->
+  \rank (mxo (@Num.sqrt F) rows cols m) = cols ->
+  exists q r, qr (rops (@Num.sqrt F)) m = Some (q, r) /\
+    wf2 rows rows q /\ wf2 rows cols r /\
+    (mxo (@Num.sqrt F) rows rows q)^T *m mxo (@Num.sqrt F) rows rows q = 1%:M /\
+    mxo (@Num.sqrt F) rows rows q *m mxo (@Num.sqrt F) rows cols r = mxo (@Num.sqrt F) rows cols m /\
+    (forall i j, (j < i)%N -> (i < rows)%N -> (j < cols)%N -> mget (rops (@Num.sqrt F)) r i j = 0).
+Proof. exact @qr_full_rank. Qed.
+
+(* the reflection lemma in matrix form (not needed by the proofs above, kept as documentation of
+   what one step does): with u = x + a e, a^2 = x^T x, t = a^2 + a x0 <> 0, the matrix
+   I - (2 / (2 t)) u u^T maps x to -a e *)
+Theorem C08_qr_reflection : forall (F : fieldType) (n : nat) (x e : 'cV[F]_n) (a x0 : F),
   e^T *m x = x0%:M -> x^T *m x = (a * a)%:M ->
   tval a x0 != 0 -> (2%:R : F) != 0 ->
   Hmx x e a x0 *m x = - (a *: e).
@@ -143,11 +196,18 @@ Example C08_nonvacuous :
   qr_regular sq_example 2 (List.seq 0 (Nat.min (2 - 1) 1)) m_example.
 Proof. exact qr_example. Qed.
 
+Example C08_nonvacuous_triangular :
+  qr_lengths_ok sq_example 2 (List.seq 0 (Nat.min (2 - 1) 1)) m_example.
+Proof. exact qr_example_lengths. Qed.
+
 Print Assumptions C08_cholesky_sound.
 Print Assumptions C08_cholesky_rejects.
 Print Assumptions C08_cholesky_rejects_first_pivot.
 Print Assumptions C08_cholesky_rejects_not_posdef.
-Print Assumptions C08_cholesky_complete_partial.
+Print Assumptions C08_cholesky_complete_any_oracle.
+Print Assumptions C08_cholesky_complete.
+Print Assumptions C08_cholesky_present_iff_posdef.
+Print Assumptions C08_cholesky_next_pivot_positive.
 Print Assumptions C08_ldlt_sound.
 Print Assumptions C08_ldlt_rejects.
 Print Assumptions C08_qr_absent_iff.
@@ -155,4 +215,7 @@ Print Assumptions C08_qr_shapes.
 Print Assumptions C08_qr_1x1.
 Print Assumptions C08_householder_sym_invol.
 Print Assumptions C08_qr.
-Print Assumptions C08_qr_triangular_partial.
+Print Assumptions C08_qr_triangular.
+Print Assumptions C08_qr_regular_of_full_rank.
+Print Assumptions C08_qr_full_rank.
+Print Assumptions C08_qr_reflection.
